@@ -39,12 +39,14 @@ void Eigen::max_pool2d_fw_impl(
         float maxval = std::numeric_limits<float>::lowest();
 
         for (std::uint32_t w_x = 0; w_x < window1; ++w_x) {
-          const std::int32_t x_x = -padding1 + y_x * stride1 + w_x;
-          if (x_x < 0 || x_x >= static_cast<std::int32_t>(x_width)) continue;
+          const std::int64_t x_x
+            = static_cast<std::int64_t>(y_x) * stride1 + w_x - padding1;
+          if (x_x < 0 || x_x >= static_cast<std::int64_t>(x_width)) continue;
 
           for (std::uint32_t w_y = 0; w_y < window0; ++w_y) {
-            const std::int32_t x_y = -padding0 + y_y * stride0 + w_y;
-            if (x_y < 0 || x_y >= static_cast<std::int32_t>(x_height)) continue;
+            const std::int64_t x_y
+              = static_cast<std::int64_t>(y_y) * stride0 + w_y - padding0;
+            if (x_y < 0 || x_y >= static_cast<std::int64_t>(x_height)) continue;
 
             const float val = px[x_x * x_height + x_y];
             if (val > maxval) maxval = val;
@@ -93,12 +95,14 @@ void Eigen::max_pool2d_bw_impl(
         bool next = true;
 
         for (std::uint32_t w_x = 0; next && w_x < window1; ++w_x) {
-          const std::int32_t x_x = -padding1 + y_x * stride1 + w_x;
-          if (x_x < 0 || x_x >= static_cast<std::int32_t>(x_width)) continue;
+          const std::int64_t x_x
+            = static_cast<std::int64_t>(y_x) * stride1 + w_x - padding1;
+          if (x_x < 0 || x_x >= static_cast<std::int64_t>(x_width)) continue;
 
           for (std::uint32_t w_y = 0; next && w_y < window0; ++w_y) {
-            const std::int32_t x_y = -padding0 + y_y * stride0 + w_y;
-            if (x_y < 0 || x_y >= static_cast<std::int32_t>(x_height)) continue;
+            const std::int64_t x_y
+              = static_cast<std::int64_t>(y_y) * stride0 + w_y - padding0;
+            if (x_y < 0 || x_y >= static_cast<std::int64_t>(x_height)) continue;
 
             const std::uint32_t x_addr = x_x * x_height + x_y;
             if (px[x_addr] == maxval) {
